@@ -45,7 +45,10 @@ def knobs(rng):
 # ---------------------------------------------------------------------------
 
 import re as _re
-_PYMTL_SRC_RE = _re.compile('( *(@|def))')      # the substitution pymtl3 applies to a block's source before parsing it
+try:
+  from pymtl3.dsl.ComponentLevel2 import compiled_re as _PYMTL_SRC_RE      # the substitution pymtl3 applies to a block's source before parsing it
+except Exception:
+  _PYMTL_SRC_RE = _re.compile('( *(@|def))')
 
 
 class Wrap(ast.NodeTransformer):
